@@ -1056,6 +1056,76 @@ fn enumerate<X: Clone>(alphabet: &[X], len: usize) -> Vec<Vec<X>> {
     out
 }
 
+/// one-pass population variance exactly as vmean_var / vskew / vkurt / vcorr_pearson compute it (sum, sum of squares, / n, - mean^2);
+/// plain f64 arithmetic, no tevec
+fn onepass_popvar(xs: &[f64]) -> f64 {
+    let (mut m1, mut m2) = (0.0f64, 0.0f64);
+    for v in xs {
+        m1 += *v;
+        m2 += *v * *v;
+    }
+    let n = xs.len() as f64;
+    m1 /= n;
+    m2 /= n;
+    m2 - m1 * m1
+}
+fn ulps(x: f64, k: i64) -> f64 { f64::from_bits((x.to_bits() as i64 + k) as u64) }
+
+/// mutation campaign M2 (agg.rs:734 `var_a > EPS` -> `>=` was seen only by the static tie): series whose COMPUTED one-pass
+/// population variance is exactly the double 1e-14 (= EPS), one step below and one step above it.  The generated k/4, k/7, k/10
+/// values never land on the threshold itself, so `<=` / `<` and `>` / `>=` in the EPS guards of vskew, vkurt and vcorr_pearson were
+/// indistinguishable by input.  The last element is found by bisection + a scan of neighbouring doubles; bases come from their
+/// own stream of the seed (nothing else is re-sampled).
+fn eps_edge_cases(em: &mut Emitter) {
+    use tevec::prelude::TIter;
+    const EPS: f64 = 1e-14;
+    let mut rng = Rng::new(em.args.seed ^ 0x6570_735f_6564_6765);
+    for n in 2..=5usize {
+        let mut found = 0;
+        for _attempt in 0..40 {
+            if found >= 2 { break; }
+            // n-1 values of magnitude 1e-7 with a mean near 0 (then sum2/n and the result share a binade and the threshold is reachable)
+            let mut base: Vec<f64> = (0..n - 1).map(|i| (if i % 2 == 0 { -1.0 } else { 0.5 }) * (rng.range(60, 140) as f64) * 1e-9).collect();
+            if n >= 4 && rng.chance(1, 2) { base[1] = 0.0; }
+            let var_with = |y: f64| { let mut v = base.clone(); v.push(y); onepass_popvar(&v) };
+            let (mut lo, mut hi) = (1e-9f64, 1e-5f64);
+            if !(var_with(lo) < EPS && var_with(hi) > EPS) { continue; }
+            for _ in 0..200 {
+                let mid = (lo + hi) / 2.0;
+                if var_with(mid) < EPS { lo = mid } else { hi = mid }
+            }
+            let hit = (-400..400i64).map(|k| ulps(lo, k)).find(|y| var_with(*y) == EPS);
+            let y = match hit { Some(y) => y, None => continue };
+            found += 1;
+            let below = (1..400i64).map(|k| ulps(y, -k)).find(|y| var_with(*y) < EPS).unwrap();
+            let above = (1..400i64).map(|k| ulps(y, k)).find(|y| var_with(*y) > EPS).unwrap();
+            for (side, last) in [("at", y), ("below", below), ("above", above)] {
+                let mut xf = base.clone();
+                xf.push(last);
+                let s = Series { k: (0..n as i64).map(Some).collect(), den: 1, tags: format!("style=eps_edge side={} nulls=none", side) };
+                let cf = coq_f(&xf);
+                let shown = format!("{:?} (bits {:?})", xf, xf.iter().map(|x| format!("{:016x}", x.to_bits())).collect::<Vec<_>>());
+                let vals_f = vec![0.0, f64::NAN];
+                let vals_f_coq = coq_f(&vals_f);
+                // mom (4) + sk (8): vmean_var / vvar / vstd floor, vskew / vkurt `var <= EPS -> 0`
+                valid_groups!(em, "f", "f64", "vec", &s, cf, &vals_f, vals_f_coq, shown, || xf.clone(), || xf.clone(), 12);
+                valid_groups!(em, "f", "f64", "titer", &s, cf, &vals_f, vals_f_coq, shown, || xf.titer(), || xf.titer(), 12);
+                // vcorr_pearson: the edge series as first / second / both operands; the partner has an ordinary spread
+                let ramp: Vec<f64> = (0..n).map(|i| (i * i) as f64).collect();
+                let cr = coq_f(&ramp);
+                let maxmp = n + 1;
+                for (which, xa, xb, ca, cb) in [("first", &xf, &ramp, &cf, &cr), ("second", &ramp, &xf, &cr, &cf), ("both", &xf, &xf, &cf, &cf)] {
+                    let tags = format!("fn=corr ty=f64,f64 src=titer len={} npair={} lens=eq style=eps_edge side={} edge={}", n, n, side, which);
+                    let desc = format!("group=corr ty=f64,f64 src=titer xs={:?} ys={:?} maxmp={} ; cells: for mp in 0..=maxmp: vcorr_pearson ; one-pass popvar of the {} series is {} EPS",
+                        xa, xb, maxmp, which, side);
+                    em.case("custom:float:1e-7", &tags, &desc,
+                        || sweep(maxmp, &format!("corr_ff mp {} {}", ca, cb)), || run(|| imp::corr(|| xa.titer(), || xb.titer(), maxmp)));
+                }
+            }
+        }
+    }
+}
+
 fn main() {
     let mut em = Emitter::new();
     let mut rng = Rng::new(em.args.seed);
@@ -1269,5 +1339,7 @@ fn main() {
     }
     // ---- audit additions: Number helpers, casts, vfold2 / vapply ---------------------------------------------
     audit_cases(&mut em, &mut rng, thorough);
+    // ---- mutation campaign M2: inputs ON the EPS threshold of the variance guards ---------------------------------------
+    eps_edge_cases(&mut em);
     em.finish();
 }
